@@ -54,7 +54,7 @@ func honestSigners(marks []int) []int {
 var voteClasses = []string{
 	"honest", "honest", "honest", "one-below", "phantom-pad", "phantom-pad", "phantom-extra", "drop-signer", "extra-signer",
 	"swap-stranger", "dup-share", "wrong-ctx", "wrong-ctx", "msg-fields", "msg-proposer", "tamper", "tamper", "malformed", "free",
-	"reuse", "reuse",
+	"reuse", "reuse", "wrap-256",
 }
 
 func genVoteSpec(t *rapid.T, n int) VoteSpec {
@@ -179,6 +179,25 @@ func genVoteSpec(t *rapid.T, n int) VoteSpec {
 			s.BitmapBytes = rapid.SampledFrom([]int{40, 48, 64}).Draw(t, "bigLen")
 		default:
 			s.SigKind = rapid.IntRange(1, 4).Draw(t, "sig")
+		}
+	case "wrap-256":
+		// a bitmap longer than 32 bytes (two of the five messages do not bound it): one real signer short of the
+		// threshold, the missing count made up by a mark at 256+p while voter p signs twice
+		if th >= 2 && n >= 1 {
+			s.Marks = subset(t, n, th-2, "marksW")
+			s.Signers = honestSigners(s.Marks)
+			s.BitmapBytes = rapid.SampledFrom([]int{40, 48, 64}).Draw(t, "wrapLen")
+			p := rapid.IntRange(0, n-1).Draw(t, "wrapP")
+			if len(s.Marks) > 0 && rapid.Bool().Draw(t, "wrapMarked") {
+				p = s.Marks[rapid.IntRange(0, len(s.Marks)-1).Draw(t, "wrapIdx")]
+			}
+			if 256+p < s.BitmapBytes*8 {
+				s.Marks = append(s.Marks, 256+p)
+				s.Signers = append(s.Signers, p+1)
+			}
+			s.Kind = rapid.SampledFrom([]int{kindProcess, kindReplace, kindProcess, kindReplace, s.Kind}).Draw(t, "wrapKind")
+		} else {
+			s.Class = "honest"
 		}
 	case "reuse":
 		// the bitmap and aggregate signature of an earlier valid vote of this case, relabelled for the current
@@ -316,7 +335,7 @@ func TestC01_Handler(t *testing.T) {
 	RunProp(t, Prop[QuorumCase]{
 		ID: "C01", Name: "handler", Quick: 320, Thor: 8000,
 		Gen: genQuorumCase(24), Run: runQuorumHandler,
-		Rule: "per case: a relayer group (0..256 voters, chosen epoch/sequence, ECDSA or Schnorr bridge key) established by genesis plus two real blocks, then up to 24 votes built per class (honest at/above threshold, one below, phantom marks beyond the voter list, signer set != marks, wrong chain/sequence/epoch/method/proposer, payload changed after signing, bitmap and signature of an earlier valid vote of the same case relabelled for the current sequence/epoch under another body, malformed bitmap/signature, free-form) and given to the registered handler of each of the 5 voted messages on a branch of committed state; oracle = reference quorum predicate; non-trivial = group has >= 1 voter and the vote contains a genuine member share for the right sequence and epoch; evaluations count votes",
+		Rule: "per case: a relayer group (0..256 voters, chosen epoch/sequence, ECDSA or Schnorr bridge key) established by genesis plus two real blocks, then up to 24 votes built per class (honest at/above threshold, one below, phantom marks beyond the voter list, signer set != marks, wrong chain/sequence/epoch/method/proposer, payload changed after signing, bitmap and signature of an earlier valid vote of the same case relabelled for the current sequence/epoch under another body, malformed bitmap/signature, a 40-64 byte bitmap with a mark at 256+p while voter p signs twice, free-form) and given to the registered handler of each of the 5 voted messages on a branch of committed state; oracle = reference quorum predicate; non-trivial = group has >= 1 voter and the vote contains a genuine member share for the right sequence and epoch; evaluations count votes",
 	})
 }
 
@@ -441,5 +460,17 @@ func TestC01_Threshold(t *testing.T) {
 				return
 			}
 		}
+	})
+}
+
+
+// C01 under group changes: the relayer world (elections, joins, removals incl. the proposer's) with votes of every
+// class signed by / aimed at the group as it is at that moment.
+func TestC01_GroupChanges(t *testing.T) {
+	RunProp(t, Prop[RelCase]{
+		ID: "C01", Name: "group-changes", Quick: 320, Thor: 6000,
+		Gen: genRelCase("C01"),
+		Run: func(c RelCase) Outcome { return runRelayer(c, "C01") },
+		Rule: "relayer-world histories of 6-40 blocks (add/remove requests incl. removal of the proposer together with leading voters, registrations, acceptances, elections, restarts from the exported state) in which half of the transactions are votes of the C01 classes resolved against the group as it is then; the reference predicate additionally requires that proposer and marked voters are pairwise distinct members; non-trivial = a vote was decided after at least one election; evaluations count blocks",
 	})
 }
